@@ -34,10 +34,28 @@ type ksEnv struct {
 	ro      []bool   // in mount order
 	uuids   []string // in mount order
 	perm    []int    // mount order -> configuration index
+	// configuration as written (by configuration index); see ksOpts.access
+	cfgRO    []bool
+	cfgUUIDs []string
+	access   []ksAccess
 }
+
+// ksAccess describes Volumes.<uuid>.AccessViaHosts of one configured volume: an entry for this
+// server's URL (ksSelfURL) and/or for another server's URL (ksOtherURL), each 0 = no entry,
+// 1 = entry with ReadOnly false, 2 = entry with ReadOnly true.  A volume whose AccessViaHosts is
+// non-empty and does not name this server is not this server's volume at all.
+type ksAccess struct {
+	self  int
+	other int
+}
+
+var ksOtherURL = arvados.URL{Scheme: "http", Host: "otherkeep.example:25107"}
+
+func ksSelfURL() arvados.URL { return testServiceURL }
 
 type ksOpts struct {
 	ro        []bool
+	access    []ksAccess // per configured volume (nil: no AccessViaHosts anywhere)
 	dirs      []string // reuse these directories (restart on the same volumes) instead of new temp dirs
 	ttl       time.Duration
 	lifetime  time.Duration
@@ -91,7 +109,24 @@ func ksNewEnv(o ksOpts) (*ksEnv, error) {
 		p, _ := json.Marshal(map[string]interface{}{"Root": d, "Serialize": o.serialize})
 		uuid := fmt.Sprintf("zzzzz-nyw5e-%015d", i)
 		byUUID[uuid] = i
-		cluster.Volumes[uuid] = arvados.Volume{Replication: 1, Driver: "Directory", DriverParameters: p, ReadOnly: ro}
+		var via map[arvados.URL]arvados.VolumeAccess
+		var acc ksAccess
+		if o.access != nil {
+			acc = o.access[i]
+		}
+		if acc.self != 0 || acc.other != 0 {
+			via = map[arvados.URL]arvados.VolumeAccess{}
+			if acc.self != 0 {
+				via[ksSelfURL()] = arvados.VolumeAccess{ReadOnly: acc.self == 2}
+			}
+			if acc.other != 0 {
+				via[ksOtherURL] = arvados.VolumeAccess{ReadOnly: acc.other == 2}
+			}
+		}
+		cluster.Volumes[uuid] = arvados.Volume{Replication: 1, Driver: "Directory", DriverParameters: p, ReadOnly: ro, AccessViaHosts: via}
+		e.cfgRO = append(e.cfgRO, ro)
+		e.cfgUUIDs = append(e.cfgUUIDs, uuid)
+		e.access = append(e.access, acc)
 	}
 	e.cluster = cluster
 	e.h = &handler{}
@@ -125,9 +160,34 @@ func ksInstallBufs(log logrus.FieldLogger) {
 	if ksBigBuf == nil {
 		ksBigBuf = make([]byte, BlockSize)
 	}
-	p := newBufferPool(log, 8, BlockSize)
+	// (4 of the 12 places are taken for good: other clients' requests in flight elsewhere.  They matter
+	// only to the pool's accounting, see ksInstallPoolHeld.)
+	p := newBufferPool(log, 12, BlockSize)
 	p.Pool.New = func() interface{} { return ksBigBuf }
+	for i := 0; i < 4; i++ {
+		p.limiter <- true
+	}
 	bufs = p
+}
+
+// advertised returns what GET /mounts says: mount uuids and their read_only flags, in the order given.
+func (e *ksEnv) advertised() (uuids []string, ro []bool, err error) {
+	rec := e.do("GET", "/mounts", nil, -1, true)
+	if rec.Code != 200 {
+		return nil, nil, fmt.Errorf("GET /mounts: status %d", rec.Code)
+	}
+	var ms []struct {
+		UUID     string `json:"uuid"`
+		ReadOnly bool   `json:"read_only"`
+	}
+	if err := json.Unmarshal(rec.Body.Bytes(), &ms); err != nil {
+		return nil, nil, err
+	}
+	for _, m := range ms {
+		uuids = append(uuids, m.UUID)
+		ro = append(ro, m.ReadOnly)
+	}
+	return uuids, ro, nil
 }
 
 func (e *ksEnv) cleanup() {
